@@ -119,7 +119,20 @@ func (g *gen) stmt(depth int) []Stmt {
 		return []Stmt{&Block{Body: g.block(1+g.intn(3, "bn"), depth-1)}}
 	case r < 96:
 		g.class("stmt:phony")
-		return []Stmt{&Assign{L: nil, R: g.expr(g.valueType(1), g.exprDepth())}}
+		r := g.expr(g.valueType(1), g.exprDepth())
+		if v, ok := r.(*VarRef); ok && v.V.Kind == VLet && g.f.off("swizzle.of-binary") {
+			// `_ = v;` renames the let's expression to "phony", which the MSL writer then inlines at
+			// every use; with the open finding C04-2 (no parentheses around an inlined binary base
+			// of .x / [i]) that gives wrong text: keep bare lets out of phony assignments
+			if _, bin := v.V.Init.(*Binary); bin {
+				g.class("stmt:phony:let-of-binary-avoided")
+				r = &Paren{X: &Binary{Op: "==", L: r, R: r, T: TBool}}
+				if v.V.T.K != TScalar {
+					r = g.litOf(Bool)
+				}
+			}
+		}
+		return []Stmt{&Assign{L: nil, R: r}}
 	case r < 100 && g.f.Atomics:
 		if s := g.atomicStmt(); s != nil {
 			return s
@@ -140,6 +153,10 @@ func (g *gen) declStmt() Stmt {
 		g.noCalls = true
 		v.Init = g.constExprOf(t, 2)
 		g.noCalls = save
+		if c, ok := v.Init.(*Construct); ok && c.T != nil && c.T.K == TVec && len(c.Args) == 1 && c.Args[0].Type() != nil && c.Args[0].Type().K == TScalar && g.f.off("let.typed-splat") {
+			// finding C04-8 (MSL) also hits a typed function-scope const bound to a splat constructor
+			v.NoType = true
+		}
 	case VVar:
 		g.class("stmt:var")
 		if g.chance(80, "vinit") || g.f.off("var.no-init") {
@@ -441,7 +458,15 @@ func (g *gen) loopStmt(depth int) []Stmt {
 func (g *gen) stepFn(t *Type) *Func {
 	x := &Var{Name: g.name("p"), Kind: VParam, T: t}
 	f := &Func{Name: g.name("step_"), Params: []*Var{x}, Ret: t}
-	f.Body = []Stmt{&Return{X: &Binary{Op: "+", L: &VarRef{x}, R: &Lit{T: t, Bits: 1}, T: t}}}
+	if g.chance(50, "stepglobal") && !g.f.off("private-var") {
+		// the helper is also the only code that names a module-scope variable of its own
+		// (interface lists, per-entry-point reachability, pass-through arguments)
+		g.class("step-helper:own-global")
+		cnt := &Var{Name: g.name("pvs"), Kind: VPrivate, T: TU32}
+		g.mod.Decls = append(g.mod.Decls, cnt)
+		f.Body = append(f.Body, &Assign{L: &VarRef{cnt}, Op: "+", R: &Lit{T: TU32, Bits: 1}})
+	}
+	f.Body = append(f.Body, &Return{X: &Binary{Op: "+", L: &VarRef{x}, R: &Lit{T: t, Bits: 1}, T: t}})
 	g.mod.Decls = append(g.mod.Decls, f)
 	return f
 }
